@@ -19,11 +19,13 @@ def run(c):
         c.run_driver(drv, ["-mode", "honest", "-out", trace, "-topos", "T1,T2,T3",
                            "-random", 40 if c.thorough else 3])
     _dp.validate(c, "C07", trace)
-    if c.thorough and not c.replay:
-        # the forwarding events of the fault and router-alert journeys (SCMP answers travelling back)
-        for mode in ("fault", "alert"):
+    if not c.replay:
+        # forwarding events of packets that carry router-alert flags (traceroute requests passing routers
+        # that must not touch the flag, e.g. the ingress router when the flagged egress is on a sibling) and,
+        # thorough, of the fault journeys (SCMP answers travelling back)
+        for mode in (("fault", "alert") if c.thorough else ("alert",)):
             t2 = c.scratch + "/%s.ndjson" % mode
-            c.run_driver(drv, ["-mode", mode, "-out", t2, "-topos", "T1,T2"])
+            c.run_driver(drv, ["-mode", mode, "-out", t2, "-topos", "T1,T2" if c.thorough else "T2"])
             _dp.validate(c, "C07", t2)
             c.cov["evaluations"] += sum(1 for line in open(t2) if '"disp":"forward"' in line)
     _dp.coverage(c, trace, lambda r, evs: r["mode"] == "honest" and any(
